@@ -325,6 +325,12 @@ class RankedVoteValidator:
                 rank_vote_count_checkers = collections.defaultdict(
                     lambda: rank_checker
                 )
+        elif not isinstance(rank_vote_count_checkers, collections.defaultdict):
+            # ranks without an explicit checker are not constrained
+            rank_vote_count_checkers = collections.defaultdict(
+                lambda: VoteMagnitudeChecker((None, None)),
+                rank_vote_count_checkers
+            )
         self.rank_vote_count_checkers = rank_vote_count_checkers
         self.nominator = nominator
 
@@ -387,6 +393,12 @@ class ScoreVoteValidator:
             else:
                 default_sc = VoteMagnitudeChecker(sum_bounds, 'sum')
                 sum_checkers = collections.defaultdict(lambda: default_sc)
+        elif not isinstance(sum_checkers, collections.defaultdict):
+            # numbers of scorings without an explicit checker are not checked
+            sum_checkers = collections.defaultdict(
+                lambda: VoteMagnitudeChecker((None, None), 'sum'),
+                sum_checkers
+            )
         self.n_scorings_checker = n_scorings_checker
         self.sum_checkers = sum_checkers
         self.nominator = nominator
